@@ -1,0 +1,13 @@
+//go:build verif
+
+package wal
+
+import (
+	"github.com/alphadose/haxmap"
+	"github.com/projecteru2/core/wal/kv"
+)
+
+// NewHydroWithKV builds a Hydro on a caller-supplied kv.KV (verification harness only).
+func NewHydroWithKV(store kv.KV) *Hydro {
+	return &Hydro{Map: haxmap.New[string, EventHandler](), store: store}
+}
